@@ -3,6 +3,8 @@
 //!   1 t        open a local stream of type t (0 bidirectional, 1 unidirectional)
 //!                                              -> out: 1 t r   (r = stream id, -1 pending, -2 error)
 //!   2 t v      MAX_STREAMS(type t, v)          -> out: 2
+//!   4 h t      application handle h (own open token) polls open of a stream of type t
+//!                                              -> out: 4 t r
 //!   3 j        close the j-th (mod count) opened unidirectional stream: application reset, the
 //!              RESET_STREAM is transmitted and acknowledged           -> out: 3
 use h_common::{Cur, V};
@@ -38,6 +40,24 @@ pub fn st(input: &[V]) -> Vec<V> {
                     }
                     Ok(None) => out.extend([1, t as V, -1]),
                     Err(()) => out.extend([1, t as V, -2]),
+                }
+            }
+            4 => {
+                let h = c.usize() % 4;
+                let t = c.u64() % 2;
+                if opened >= 64 {
+                    break;
+                }
+                match s.open_with(h, t) {
+                    Ok(Some(id)) => {
+                        opened += 1;
+                        if t == 1 {
+                            uni.push((id, false));
+                        }
+                        out.extend([4, t as V, id as V]);
+                    }
+                    Ok(None) => out.extend([4, t as V, -1]),
+                    Err(()) => out.extend([4, t as V, -2]),
                 }
             }
             2 => {
